@@ -141,6 +141,37 @@ fn plant(path: &Path, pre: &str, longer_than: usize) {
     }
 }
 
+/// Pre-state "samelen": a regular file of exactly the length of `output`, every byte different (an older generation of the same
+/// fixed-size file).  An empty output has no such neighbour: nothing is planted.
+fn plant_samelen(path: &Path, output: &[u8]) {
+    if output.is_empty() {
+        return;
+    }
+    if let Some(d) = path.parent() {
+        let _ = std::fs::create_dir_all(d);
+    }
+    let old: Vec<u8> = output.iter().map(|b| !b).collect();
+    let _ = std::fs::write(path, old);
+}
+
+/// Damage by table region of an MPQ archive (user data / header at offset 0 as the builder writes it): the header's table
+/// pointers (hash table position @0x10, block table position @0x14, entry counts @0x18 / @0x1c, 16 bytes per entry) locate
+/// the tables; the file is cut strictly inside the named table (seed-chosen offset), everything stored before it intact.
+fn cut_in_table(bytes: &[u8], class: &str, rng: &mut Rng) -> Vec<u8> {
+    let n = bytes.len();
+    if n < 0x20 || &bytes[0..4] != b"MPQ\x1a" {
+        tool_error("cut_in_table: reference archive does not start with an MPQ header");
+    }
+    let u = |o: usize| u32::from_le_bytes([bytes[o], bytes[o + 1], bytes[o + 2], bytes[o + 3]]) as usize;
+    let (pos, cnt) = if class == "cut_hash" { (u(0x10), u(0x18)) } else { (u(0x14), u(0x1c)) };
+    let len = (cnt * 16).min(n.saturating_sub(pos));
+    if pos == 0 || pos >= n || len < 2 {
+        tool_error(&format!("cut_in_table: {class}: table at {pos} (+{len}) not inside the {n}-byte archive"));
+    }
+    let cut = pos + 1 + rng.below(len as u64 - 1) as usize;
+    bytes[..cut].to_vec()
+}
+
 /// lower-cased characters of a string as one-character strings (the spec's GlobMatch works on these)
 fn chars(x: &str) -> Vec<String> {
     x.to_lowercase().chars().map(|c| c.to_string()).collect()
@@ -216,7 +247,7 @@ struct Rt {
     tok_in: String,
     tok_back: String,
     // pre-state of the output location and the comparison with the same command run into a fresh location
-    pre: String,       // "empty" | "shorter" | "longer" | "dir" | "readonly"
+    pre: String,       // "empty" | "shorter" | "longer" | "samelen" | "dir" | "readonly"
     out_tok: String,   // token / length of the produced file ("" / 0 = not produced or not compared)
     fresh_tok: String,
     out_len: u64,
@@ -461,7 +492,18 @@ fn fmt_case(cli: &Path, dir: &Path, c: &Value, seed: u64) -> Vec<Value> {
         _ => tool_error(&format!("no argv rule for {fam} {cmd}")),
     }
     // pre-state of the output location (producers only)
-    if pre != "empty" {
+    if pre == "samelen" {
+        // what the command produces into a fresh location tells the length; an older generation of that file is planted
+        if let Some((path, _)) = outs_paths.first() {
+            let gen0 = dir.join(format!("gen0-{}", path.file_name().unwrap().to_string_lossy()));
+            let af: Vec<String> = a.iter().map(|x| if *x == p(path) { p(&gen0) } else { x.clone() }).collect();
+            let _ = run_cli(cli, dir, &af);
+            if let Ok(b) = std::fs::read(&gen0) {
+                plant_samelen(path, &b);
+            }
+            let _ = std::fs::remove_file(&gen0);
+        }
+    } else if pre != "empty" {
         if let Some((path, _)) = outs_paths.first() {
             plant(path, &pre, 2 << 20);
         }
@@ -764,15 +806,20 @@ fn mpq1_case(cli: &Path, dir: &Path, c: &Value, seed: u64) -> Vec<Value> {
         .add_file_data_with_options(gen_content("text", 900 + rng.below(600) as usize, &mut rng), "secret\\enc.dat", wow_mpq::compression::flags::ZLIB, true, 0)
         .add_file_data_with_encryption(gen_content("text", 700 + rng.below(600) as usize, &mut rng), "secret\\fix.dat", wow_mpq::compression::flags::ZLIB, true, 0)
         .add_file_data(gen_content("text", 40_000 + rng.below(9000) as usize, &mut rng), "big\\multi.txt");
+    let mut members: Vec<(String, Vec<u8>)> = Vec::new();
     for (i, n) in names.iter().take(nfiles).enumerate() {
         let data = if i == 0 { gen_content("text", (max_file() * 3 / 8 + rng.below(max_file() * 3 / 8)) as usize, &mut rng) } else { content(&mut rng, i) };
+        members.push((n.to_string(), data.clone()));
         b = b.add_file_data(data, n);
     }
     if let Err(e) = b.build(&arch) {
         tool_error(&format!("cannot build the reference archive: {e}"));
     }
     let mut bytes = std::fs::read(&arch).unwrap();
-    if input == "flagged" {
+    let pristine = bytes.clone();
+    if input == "cut_hash" || input == "cut_block" {
+        bytes = cut_in_table(&bytes, input, &mut rng);
+    } else if input == "flagged" {
         // ruin the stored (zlib) data of readme.txt: the archive opens and lists, that file cannot be read
         let info = Archive::open(&arch).and_then(|a| a.find_file("readme.txt")).ok().flatten();
         let Some(fi) = info else { tool_error("reference archive lacks readme.txt") };
@@ -807,8 +854,14 @@ fn mpq1_case(cli: &Path, dir: &Path, c: &Value, seed: u64) -> Vec<Value> {
     // pre-state of the producers' output locations
     if pre != "empty" && input == "valid" {
         match cmd {
+            // samelen: the directory holds an older generation of every member (same names, same lengths, other bytes)
+            "extract" if pre == "samelen" => {
+                for (n, d) in &members {
+                    plant_samelen(&outd.join(on_disk_name(n, preserve).replace('\\', "/")), d);
+                }
+            }
             "extract" => plant(&outd.join(if preserve { "my dir/a file.txt" } else { "a file.txt" }), &pre, 9000 + max_file() as usize),
-            "rebuild" => plant(&dir.join("rebuilt.mpq"), &pre, 2 << 20),
+            "rebuild" if pre != "samelen" => plant(&dir.join("rebuilt.mpq"), &pre, 2 << 20),
             _ => {}
         }
     }
@@ -868,11 +921,17 @@ fn mpq1_case(cli: &Path, dir: &Path, c: &Value, seed: u64) -> Vec<Value> {
             }
         }
         "compare" => {
+            // a damaged archive is compared with its intact original, in the first (opt 0) or the second (opt 1) position
             let other = dir.join("b.mpq");
+            let is_damaged = input != "valid" && input != "flagged" && input != "nonexistent";
             if input != "nonexistent" {
-                std::fs::write(&other, &bytes).unwrap();
+                std::fs::write(&other, if is_damaged { &pristine } else { &bytes }).unwrap();
             }
-            a.extend([af, p(&other)]);
+            if is_damaged && opt == 1 {
+                a.extend([p(&other), af]);
+            } else {
+                a.extend([af, p(&other)]);
+            }
             if opt == 1 {
                 a.push(s("--content-check"));
             }
@@ -884,7 +943,7 @@ fn mpq1_case(cli: &Path, dir: &Path, c: &Value, seed: u64) -> Vec<Value> {
                 std::fs::write(&src, content(&mut rng, 1)).unwrap();
             }
             let _ = std::fs::remove_file(&arch);
-            if pre != "empty" && input == "valid" {
+            if pre != "empty" && pre != "samelen" && input == "valid" {
                 plant(&arch, &pre, 2 << 20);
             }
             a.extend([af, s("--add"), p(&src)]);
@@ -893,6 +952,17 @@ fn mpq1_case(cli: &Path, dir: &Path, c: &Value, seed: u64) -> Vec<Value> {
             }
         }
         _ => tool_error(&format!("no argv rule for mpq {cmd}")),
+    }
+    // samelen for the archive-producing sub-commands: the same command into a fresh path tells the length
+    if pre == "samelen" && input == "valid" && (cmd == "create" || cmd == "rebuild") {
+        let target = if cmd == "create" { arch.clone() } else { dir.join("rebuilt.mpq") };
+        let gen0 = dir.join("gen0.mpq");
+        let af0: Vec<String> = a.iter().map(|x| if *x == p(&target) { p(&gen0) } else { x.clone() }).collect();
+        let _ = run_cli(cli, dir, &af0);
+        if let Ok(b) = std::fs::read(&gen0) {
+            plant_samelen(&target, &b);
+        }
+        let _ = std::fs::remove_file(&gen0);
     }
     let r = run_cli(cli, dir, &a);
     match cmd {
@@ -985,6 +1055,7 @@ fn pipe_case(cli: &Path, dir: &Path, c: &Value, seed: u64) -> Vec<Value> {
         _ => 13,
     };
     let mut inputs: Vec<(String, String)> = Vec::new();
+    let mut datas: Vec<(String, Vec<u8>)> = Vec::new();
     let arch = dir.join("made.mpq");
     let mut a: Vec<String> = vec![s("mpq"), s("create"), p(&arch)];
     for i in 0..n {
@@ -992,6 +1063,7 @@ fn pipe_case(cli: &Path, dir: &Path, c: &Value, seed: u64) -> Vec<Value> {
         let data = content(&mut rng, if n == 1 { 3 } else { i });
         std::fs::write(ind.join(&name), &data).unwrap();
         inputs.push((name.clone(), tok(&data)));
+        datas.push((name.clone(), data));
         a.extend([s("--add"), p(&ind.join(&name))]);
     }
     a.extend([s("--version"), s(version), s("--compression"), s(compression)]);
@@ -1085,7 +1157,12 @@ fn pipe_case(cli: &Path, dir: &Path, c: &Value, seed: u64) -> Vec<Value> {
         a.extend(requested.iter().cloned());
     }
     // pre-state: something is already where the first requested (whole archive: first input) file will be written
-    if pre != "empty" {
+    if pre == "samelen" {
+        // an older generation of every packed file is already there (same names, same lengths, other bytes)
+        for (n, d) in &datas {
+            plant_samelen(&outd.join(on_disk_name(n, preserve).replace('\\', "/")), d);
+        }
+    } else if pre != "empty" {
         let first = if explicit == "all" { inputs[0].0.clone() } else { requested.iter().find(|q| !q.contains("such")).cloned().unwrap_or_default() };
         if !first.is_empty() {
             plant(&outd.join(on_disk_name(&first, preserve).replace('\\', "/")), &pre, 9000 + max_file() as usize);
